@@ -217,7 +217,9 @@ func (r *Reader) getUncompressedObject(objNum int, entry *core.XRefEntry) (core.
 	}
 
 	// Parse the indirect object
-	parser := core.NewParser(r.file)
+	// Parse from an independent view of the file: resolving an indirect /Length while this
+	// object is being parsed reads other objects, which must not move the offset under this parser.
+	parser := core.NewParser(io.NewSectionReader(r.file, entry.Offset, r.fileSize-entry.Offset))
 	parser.SetReferenceResolver(r)
 	indObj, err := parser.ParseIndirectObject()
 	if err != nil {
